@@ -8,7 +8,7 @@ from .core import Path, PyRaise
 from .interp_call import CallMixin, Frame, NoFeasiblePath
 from .interp_expr import ExprMixin
 from .interp_stmt import StmtMixin
-from .values import (BoundMethod, Closure, DictCell, ExcV, MapCell, ObjCell, OldView, Opaque, Ref, SeqCell, SeqV, Sym,
+from .values import (BoundMethod, Closure, DictCell, ExcV, MapCell, MapElem, ObjCell, OldView, Opaque, Ref, SeqCell, SeqV, Sym,
                      Unsupported, is_scalar, kind_of, mk, sort_of, to_term)
 
 _MODELS = None
@@ -67,6 +67,8 @@ class Interp(ExprMixin, StmtMixin, CallMixin):
     def get_attr(self, base, name):
         if isinstance(base, OldNS):
             v = base.values[name]
+            if isinstance(v, MapElem):
+                return MapElem(v.map_ref, v.key, old=True)
             return OldView(v) if isinstance(v, Ref) else v
         if isinstance(base, OldView):
             cell = self.old_heap[base.ref.addr]
